@@ -28,6 +28,11 @@ def readAll (H : Bytes → Bytes) (verify : Bool) (size : Nat) (digest : Bytes) 
     if (acc ++ c).length > size then .tooLong (acc ++ c)
     else readAll H verify size digest (acc ++ c) rest
 
+/-- `descriptorFromResponse` (client.go): the digest the reader verifies against. The digest the caller
+asked for wins over the `Docker-Content-Digest` header of the response (fix F31); the header counts only
+when the caller named no digest (a read through a tag). -/
+def descDigest (asked hdr : Bytes) : Bytes := if asked ≠ [] then asked else hdr
+
 def Res.clean : Res → Bool
   | .eof _ => true
   | _ => false
